@@ -204,7 +204,6 @@ TAG_ITEM_CHANGE_NAME_FROM_ITEM = {
     'crossOrigin' : 'crossorigin',
     'isMap' : 'ismap',
     'useMap' : 'usemap',
-    'dir'    : 'dirname',
     'formAction' : 'formaction',
     'formEnctype' : 'formenctype',
     'formMethod'  : 'formmethod',
